@@ -9,12 +9,14 @@ ZERO6 = '%s.device == 0 && %s.inode == 0 && %s.mode == 0 && %s.size == 0 && %s.m
 UNIT = {
     'name': 'fileinfo',
     'source': 'lib/Basic/FileInfo.cpp',
-    'dumps': ['FileInfo', 'FileTimestamp', 'FileChecksum', 'FileChecksumHasher', 'FileChecksumHasherMD5'],
+    'dumps': ['FileInfo', 'FileTimestamp', 'FileChecksum', 'FileChecksumHasher', 'FileChecksumHasherMD5', 'stat', 'timespec'],
     'types': {'MD5::MD5Result': 'struct md5result', 'llvm::MD5::MD5Result': 'struct md5result', 'std::array<uint8_t, 16>': 'md5bytes', 'array<uint8_t, 16>': 'md5bytes',
               'array<unsigned char, 16>': 'md5bytes', 'FILE': 'struct verif_FILE', 'PlatformSpecificHasher': 'struct FileChecksumHasherMD5',
               'std::string': 'vstr', 'string': 'vstr', 'basic_string<char>': 'vstr', 'StringRef': 'strref'},
     'by_value': ['strref'], 'by_pointer': ['vstr'],
     'full_structs': ['FileInfo', 'FileTimestamp', 'FileChecksum'],
+    # fields of the system records that the contract of getInfoForPath talks about, also when changed code no longer reads them
+    'need_fields': {'stat': ['st_dev', 'st_ino', 'st_mode', 'st_size', 'st_mtim'], 'timespec': ['tv_sec', 'tv_nsec']},
     'auto_translate': True,
     'calls': {
         'fn:memcmp': 'verif_memcmp32', 'fn:memset': '__builtin_memset',
